@@ -280,7 +280,32 @@ def run_history(ctx, case):
                             line_hook.install()
                         else:
                             inp.hook = hook
-                    if st.get("failed_first") and not nested:
+                    if st.get("failed_first") and not nested and st["d3"] < .4:
+                        # a Ctrl-C (or sys.exit() from a signal handler) arrives while the query waits for
+                        # the terminal's report; the application catches it, discards the late report
+                        # and asks again: that query accounts for the whole movement
+                        exc_class = KeyboardInterrupt if st["d3"] < .25 else SystemExit
+
+                        def boom(exc_class=exc_class):
+                            raise exc_class("while waiting for the cursor report")
+                        inp.hook = boom
+                        try:
+                            w.get_cursor_vertical_diff()
+                            failed = None
+                        except exc_class:
+                            failed = True
+                        except Exception as ex:  # noqa
+                            failed = repr(ex)
+                        inp.hook = None
+                        inp.q = ""
+                        if failed is not True or w.top_usable_row != top0:
+                            ctx.judge(False, case, ("C18", "hist-interrupted-query", rows, top0, d),
+                                      "C18:interrupted-query", "the interrupt propagates, top_usable_row unchanged",
+                                      [failed, w.top_usable_row, top0], {"step": k}, True)
+                            return
+                        ctx.count("interrupted_queries")
+                        had_failed = True
+                    elif st.get("failed_first") and not nested:
                         # a keypress typed ahead of the report and no extra_bytes_callback: the
                         # query raises ValueError (as the property prescribes) and accounts for
                         # nothing; the next query has to account for the whole movement
